@@ -169,13 +169,13 @@ def to_dihypergraph(data, create_using=None):
 
     elif isinstance(data, list):
         # edge list
-        result = from_hyperedge_list(data, create_using)
+        result = from_hyperedge_list(data, empty_dihypergraph(create_using))
         if not isinstance(create_using, DiHypergraph):
             return result
 
     elif isinstance(data, dict):
         # edge dict in the form we need
-        result = from_hyperedge_dict(data, create_using)
+        result = from_hyperedge_dict(data, empty_dihypergraph(create_using))
         if not isinstance(create_using, DiHypergraph):
             return result
 
